@@ -79,6 +79,8 @@ structure Round where
   built : String
   reqs : List Req
   disps : List Disp := []
+  glob : Option Globals := none       -- globals in force when they differ from the declared ones (after a revert)
+  mode : String := "full"             -- "full" | "free" (after the diagnosis-free revert)
 deriving Repr
 
 /-- Answer of the raw trie `Lookup` (L1). -/
@@ -256,7 +258,8 @@ def classifyReq (eps : List Endpoint) (u : Url) : String :=
 
 def classifyNorm (eps : List Endpoint) (u : Url) : String := classifyReq eps u
 
-def reqVerdicts (g : Globals) (r : Round) : List Verdict :=
+def reqVerdicts (g0 : Globals) (r : Round) : List Verdict :=
+  let g := r.glob.getD g0
   if r.built != "ok" then [] else
   r.reqs.filterMap fun q =>
     let a := q.ans
@@ -269,7 +272,8 @@ def reqVerdicts (g : Globals) (r : Round) : List Verdict :=
     else if !globalsOk g a then some ⟨"-", "globals " ++ who⟩
     else none
 
-def dispVerdicts (g : Globals) (r : Round) : List Verdict :=
+def dispVerdicts (g0 : Globals) (r : Round) : List Verdict :=
+  let g := r.glob.getD g0
   if r.built != "ok" then [] else
   r.disps.filterMap fun d =>
     if !dispOk r.eps g d.method d.parts d.first then
@@ -290,6 +294,7 @@ def orderVerdicts : List Round → List Verdict
   | [] => []
   | r1 :: rest =>
     (rest.flatMap fun r2 =>
+      if r1.mode != r2.mode then [] else
       (if statusAgree r1 r2 then [] else
         [⟨(if crossMatch r1.eps then "F13g" else "-"), s!"acceptance-order-dependent built={r1.built}/{r2.built}"⟩]) ++
       (if roundsAgree r1 r2 then [] else
